@@ -3,7 +3,7 @@ Line-protocol driver + checker for the C16 model (`attr`).
 
 Op lines (symbolic addresses `A`,`B`,…, `gov`; `-` = empty / none):
   init now=<t> accts=A|B names=kyc.vf:A|aml.vf:B
-  add <signer> <acct> <name> <value> <type> <exp|->
+  add <signer> <acct> <name> <value> <type> <exp|->      (a <value>: `_` = one space, `1_` = "1 ")
   upd <signer> <acct> <name> <origValue> <origType> <newValue> <newType>
   updexp <signer> <acct> <name> <value> <exp|->
   del <signer> <acct> <name>
@@ -50,6 +50,11 @@ def parseType (s : String) : AType :=
   | "proto" => .proto | "bytes" => .bytes | _ => .unspecified
 
 def dash (s : String) : String := if s = "-" then "" else s
+
+/-- A VALUE token of an op line: `-` = nil, `_` = one space (`1_` is the value `"1 "`): values may
+carry surrounding white space, which `types.NewAttribute` strips for the textual types only. -/
+def parseVal (s : String) : String := (dash s).replace "_" " "
+def showVal (v : String) : String := v.replace " " "_"
 def parseExp (s : String) : Option Nat := if s = "-" then none else s.toNat?
 def showExp : Option Nat → String
   | none => "-"
@@ -80,19 +85,20 @@ def parseOp (ws : List String) : Option SOp :=
   match ws with
   | ["add", sg, ac, n, v, ty, e] =>
     let (n, sp) := parseName n
-    some ⟨sp, .add sg ⟨dash ac, n, dash v, parseType ty, parseExp e⟩⟩
+    -- msg_server.go:30: the stored attribute is what `types.NewAttribute` makes of the message
+    some ⟨sp, .add sg (newAttribute ⟨dash ac, n, parseVal v, parseType ty, parseExp e⟩)⟩
   | ["upd", sg, ac, n, ov, ot, nv, nt] =>
     let (n, sp) := parseName n
-    some ⟨sp, .update sg (dash ac) n (dash ov) (parseType ot) (dash nv) (parseType nt)⟩
+    some ⟨sp, .update sg (dash ac) n (parseVal ov) (parseType ot) (parseVal nv) (parseType nt)⟩
   | ["updexp", sg, ac, n, v, e] =>
     let (n, sp) := parseName n
-    some ⟨sp, .updateExp sg (dash ac) n (dash v) (parseExp e)⟩
+    some ⟨sp, .updateExp sg (dash ac) n (parseVal v) (parseExp e)⟩
   | ["del", sg, ac, n] =>
     let (n, sp) := parseName n
     some ⟨sp, .delete sg (dash ac) n⟩
   | ["deld", sg, ac, n, v] =>
     let (n, sp) := parseName n
-    some ⟨sp, .deleteDistinct sg (dash ac) n (dash v)⟩
+    some ⟨sp, .deleteDistinct sg (dash ac) n (parseVal v)⟩
   | ["bind", n, o] =>
     let (n, sp) := parseName n
     some ⟨sp, .bind n o⟩
@@ -121,11 +127,11 @@ def parseInit (ws : List String) : State :=
 /-- Canonical rendering of a state (what the Go harness prints from the real store). -/
 def dump (s : State) : String :=
   let names := sortStrs (s.names.map fun (n, o) => s!"{n}:{o}")
-  let recs := sortStrs (s.recs.map fun r => s!"{r.addr}/{r.name}/{r.value}/{r.ty.toStr}/{showExp r.exp}")
+  let recs := sortStrs (s.recs.map fun r => s!"{r.addr}/{r.name}/{showVal r.value}/{r.ty.toStr}/{showExp r.exp}")
   let lnames := (s.cnt.map (·.1.1)).eraseDups
   let look := sortStrs (lnames.map fun n => s!"{n}:{"+".intercalate (sortStrs (accountsByAttribute s n))}")
   let cnt := sortStrs (s.cnt.map fun ((n, a), c) => s!"{n}/{a}/{c}")
-  let q := sortStrs (s.queue.map fun (t, (a, n, v)) => s!"{t}/{a}/{n}/{v}")
+  let q := sortStrs (s.queue.map fun (t, (a, n, v)) => s!"{t}/{a}/{n}/{showVal v}")
   s!"now={s.now} names={joinOr names ","} recs={joinOr recs ","} look={joinOr look ","} cnt={joinOr cnt ","} q={joinOr q ","}"
 
 /-- Parse a dump back into a `State` (the observed state of the implementation; the lookup
@@ -139,7 +145,7 @@ def parseDump (line : String) : Option State := do
     | _ => none
   let recs ← (splitList (← kv ws "recs") ",").mapM fun e =>
     match e.splitOn "/" with
-    | [a, n, v, ty, ex] => some (⟨a, n, v, parseType ty, parseExp ex⟩ : Attribute)
+    | [a, n, v, ty, ex] => some (⟨a, n, v.replace "_" " ", parseType ty, parseExp ex⟩ : Attribute)
     | _ => none
   let look ← (splitList (← kv ws "look") ",").mapM fun e =>
     match e.splitOn ":" with
@@ -147,7 +153,7 @@ def parseDump (line : String) : Option State := do
     | _ => none
   let q ← (splitList (← kv ws "q") ",").mapM fun e =>
     match e.splitOn "/" with
-    | [t, a, n, v] => t.toNat?.map fun t => (t, (a, n, v))
+    | [t, a, n, v] => t.toNat?.map fun t => (t, (a, n, v.replace "_" " "))
     | _ => none
   pure { now := now, names := names, recs := recs, cnt := look.flatten, queue := q }
 
